@@ -9,7 +9,9 @@ class Timeout(Exception): pass
 def _alarm(sig, frm): raise Timeout()
 
 P1_BLOCKS = [b"1-0:1.8.0(00006678.394*kWh)\r\n0-0:1.0.0(210217184019W)\r\n1-0:32.7.0(240.3*V)\r\n", b"1.8.0(1)x\r\n", b"1.8.0(5)\r\n", b"(\r\n", b"1-0:1.8.0(1\r\n", b"1-0:1.8.0(1)(2)\r\n", b"0-0:1.0.0(21)\r\n",
-             b"1-0:1.8.0(inf*kWh)\r\n", b"1-0:1.8.0(1e999*kWh)\r\n", b"1-0:1.8.0(nan*kWh)\r\n", b"1-0:1.8.0(1*2*3)\r\n", b"abc(1)def(2)\r\n", b"1-0:1.8.0()\r\n", b"1-0:1.8.0(*kWh)\r\n", b")(\r\n", b"1.8.0(1))\r\n", b"x(1)(\r\n"]
+             b"1-0:1.8.0(inf*kWh)\r\n", b"1-0:1.8.0(1e999*kWh)\r\n", b"1-0:1.8.0(nan*kWh)\r\n", b"1-0:1.8.0(1*2*3)\r\n", b"abc(1)def(2)\r\n", b"1-0:1.8.0()\r\n", b"1-0:1.8.0(*kWh)\r\n", b")(\r\n", b"1.8.0(1))\r\n", b"x(1)(\r\n",
+             # magnitudes at the edge of the float range: finite as written, not after scaling to W / Wh (and the other way round)
+             b"1-0:1.8.0(1.5e+307*kWh)\r\n", b"1-0:1.8.0(-9e307*kW)\r\n", b"1-0:1.8.0(1.7976931348623157e308*kvarh)\r\n", b"1-0:32.7.0(1e308*V)\r\n", b"1-0:1.8.0(1e-320*kWh)\r\n", b"1-0:1.8.0(-inf*kvar)\r\n"]
 def pool(rnd):
     msgs = []
     for label, build in all_cases().items():
@@ -48,8 +50,9 @@ def fuzz(p):
     cands = list(base)
     for _ in range(n): cands.append(mutate(rnd, rnd.choice(base)))
     for _ in range(n // 10): cands.append(bytes(rnd.randrange(256) for _ in range(rnd.randrange(0, 40))))
-    seen = set()
+    seen = set(); t_start = time.time()
     for payload in cands:
+        if bad and (sum(kinds.values()) >= 40 or time.time() - t_start > 90): break          # enough evidence: do not sit through hundreds of 2 s time-outs
         prevs = [None] + list(range(N)) if len(seen) < 400 else [rnd.choice([None] + list(range(N)))]
         seen.add(payload)
         for prev in prevs:
